@@ -46,6 +46,70 @@ def generator_classes(P, gen: str) -> set[str]:
     return out
 
 
+def filter_fields(P, cls: str = "EventEmitter") -> dict[str, str | None]:
+    """Write-once fields of the emitter that hold the filter, or a None-preserving container copy of it: field -> the outermost
+    container constructor (None for the parameter kept as it is).
+
+        self._event_filter = frozenset(event_filter) if event_filter is not None else None      -> {"_event_filter": "frozenset"}
+        self._filter_classes = tuple(self._event_filter) if self._event_filter is not None else None   -> {"_filter_classes": "tuple"}
+    """
+    from ..flow import _init_store
+
+    WRAPS = {"tuple", "list", "frozenset", "set", "sorted"}
+    out: dict[str, str | None] = {}
+    init = P.find_method(cls, "__init__")
+    if init is None:
+        return out
+    params = {a.arg for a in init.node.args.args + init.node.args.kwonlyargs if "filter" in a.arg}
+
+    def is_filter(t) -> bool:
+        return (isinstance(t, ast.Name) and t.id in params) or (isinstance(t, ast.Attribute) and isinstance(t.value, ast.Name) and t.value.id == "self" and t.attr in out)
+
+    def none_test(t):
+        """(subject, polarity) of `<subject> is None` / `<subject> is not None`"""
+        if isinstance(t, ast.Compare) and len(t.ops) == 1 and isinstance(t.comparators[0], ast.Constant) and t.comparators[0].value is None:
+            if isinstance(t.ops[0], ast.Is):
+                return t.left, True
+            if isinstance(t.ops[0], ast.IsNot):
+                return t.left, False
+        return None, None
+
+    changed = True
+    while changed:
+        changed = False
+        for st in init.node.body:
+            tgt, val = (st.targets[0], st.value) if isinstance(st, ast.Assign) and len(st.targets) == 1 else (st.target, st.value) if isinstance(st, ast.AnnAssign) else (None, None)
+            if not (isinstance(tgt, ast.Attribute) and isinstance(tgt.value, ast.Name) and tgt.value.id == "self") or val is None or tgt.attr in out:
+                continue
+            if _init_store(P, cls, tgt.attr) is None:
+                continue  # not write-once
+            core = val
+            if isinstance(val, ast.IfExp):
+                subj, is_none = none_test(val.test)
+                if subj is None or not is_filter(subj):
+                    continue
+                none_arm, core = (val.body, val.orelse) if is_none else (val.orelse, val.body)
+                if not (isinstance(none_arm, ast.Constant) and none_arm.value is None):
+                    continue
+            outer = None
+            while isinstance(core, ast.Call) and isinstance(core.func, ast.Name) and core.func.id in WRAPS and len(core.args) == 1 and not core.keywords:
+                outer = outer or core.func.id
+                core = core.args[0]
+            if is_filter(core):
+                out[tgt.attr] = outer
+                changed = True
+    return out
+
+
+class MemoCfg:
+    """mixin: a read of `self.<dict field>[key]` may raise KeyError (the memo-table idiom `try: return M[k] / except KeyError: M[k] = f(k)`)"""
+
+    def raises(self, kind, text, node, st):
+        if kind == "subscript" and re.match(r"self\.\w+\[", text) and isinstance(getattr(node, "ctx", None), ast.Load):
+            return ["KeyError"]
+        return super().raises(kind, text, node, st)
+
+
 def run(ctx) -> None:
     P = ctx.P
     R = ctx.rule(
@@ -285,13 +349,19 @@ def run(ctx) -> None:
 
     from ..threads import ThreadCfg
 
-    paths = Enumerator(ThreadCfg(P, follow_attrs=False)).run(qfi)  # the test may live in a private predicate method of the emitter
+    class QueueCfg(MemoCfg, ThreadCfg):
+        pass
+
+    paths = Enumerator(QueueCfg(P, follow_attrs=False)).run(qfi)  # the test may live in a private predicate method of the emitter
     ok = True
     msg = ""
     nput = 0
     params = [a.arg for a in qfi.node.args.args if a.arg != "self"]
     evparam = params[0] if params else "event"
-    FILT = {"self._event_filter", "self.event_filter"}
+    ff = filter_fields(P)
+    ctx.extra["filter_fields"] = ff
+    FILT = {"self._event_filter", "self.event_filter"} | {f"self.{f}" for f in ff}
+    TUPLES = {f"self.{f}" for f, w in ff.items() if w == "tuple"}  # usable as they are as second argument of isinstance / issubclass
     WRAP = {"tuple", "list", "frozenset", "set", "sorted"}
 
     def filter_term(t, binders) -> bool:
@@ -326,20 +396,64 @@ def run(ctx) -> None:
             else:
                 first_ok = isinstance(a0, ast.Call) and isinstance(a0.func, ast.Name) and a0.func.id == "type" and len(a0.args) == 1 and isinstance(a0.args[0], ast.Name) and a0.args[0].id == evparam
             elem_of_filter = isinstance(a1, ast.Call) and isinstance(a1.func, ast.Name) and a1.func.id == "_elem_" and len(a1.args) == 1 and filter_term(a1.args[0], binders)
-            second_ok = (isinstance(a1, ast.Call) and filter_term(a1, binders) and isinstance(a1.func, ast.Name) and a1.func.id == "tuple") or member_of_filter(a1, binders) or elem_of_filter
+            second_ok = (isinstance(a1, ast.Call) and filter_term(a1, binders) and isinstance(a1.func, ast.Name) and a1.func.id == "tuple") or member_of_filter(a1, binders) or elem_of_filter or ast.unparse(a1) in TUPLES
             if not (first_ok and second_ok):
                 return False, f"instance test with the wrong roles: {ast.unparse(n)} (expected isinstance(<event>, <member of the filter>) or issubclass(type(<event>), <the filter>))"
         return True, ""
+
+    # ---- a verdict memo: `self.<M>[type(event)]` stands for the instance test whose result is stored under that key, provided
+    # the table belongs to this emitter alone (a fresh dict per instance: the verdict depends on the emitter's filter) and is
+    # written nowhere else
+    from ..flow import _init_store
+
+    memo_reads = {}
+    for p in paths:
+        for a in p.conds():
+            mm = re.fullmatch(r"self\.(\w+)\[(.+)\]", a)
+            if mm and instance_test(a) is None:
+                memo_reads.setdefault(mm.group(1), set()).add(mm.group(2))
+    memo_ok: dict[str, str] = {}  # memo field -> the instance test it caches (text over the key)
+    for M, keys in sorted(memo_reads.items()):
+        got = _init_store(P, "EventEmitter", M)
+        per_instance = got is not None and ((isinstance(got[1], ast.Dict) and not got[1].keys) or (isinstance(got[1], ast.Call) and ast.unparse(got[1]) == "dict()"))
+        if not per_instance:
+            ok, msg = False, (
+                f"the filter verdict is read from `self.{M}[...]`, which is not a table created per emitter in __init__ (a class attribute / shared object): "
+                "the verdict one emitter stored with its filter decides for every other emitter — events outside the filter are delivered, events inside it dropped"
+            )
+            continue
+        stores = [(e, p) for p in paths for e in p.evs if e.kind == "setitem" and e.extra.get("container") == f"self.{M}"]
+        closure = {f.node for f in P.self_closure("EventEmitter", "queue_event")}
+        foreign = []
+        for mod in P.modules.values():
+            for fn in ast.walk(mod.tree):
+                if isinstance(fn, (ast.FunctionDef, ast.AsyncFunctionDef)) and fn not in closure:
+                    for n in ast.walk(fn):
+                        if isinstance(n, ast.Attribute) and n.attr == M and not (fn.name == "__init__" and isinstance(n.ctx, ast.Store)):
+                            foreign.append(f"{mod.relpath}:{n.lineno}")
+        vals = {(e.extra.get("key"), e.extra.get("value")) for e, _ in stores}
+        good = bool(stores) and not foreign and len(vals) == 1
+        if good:
+            (k, v), = vals
+            r = instance_test(v or "")
+            good = r is not None and r[0] and keys == {k}
+        if good:
+            memo_ok[M] = v
+        else:
+            ok, msg = False, f"`self.{M}[...]` decides whether an event is enqueued, but it is not a memo of the instance test (stores: {sorted(map(str, vals))[:3]}, keys read: {sorted(keys)}, other uses: {foreign[:3]})"
+    ctx.extra["verdict_memos"] = memo_ok
+    memo_msg = msg
 
     shape = False
     for p in paths:
         puts = [e for e in p.evs if e.kind == "call" and e.extra.get("func", "").endswith("_event_queue.put") or (e.kind == "call" and e.extra.get("func", "").endswith("event_queue.put"))]
         nput += len(puts)
         v = p.val
-        none_true = any(a.endswith("_event_filter is None") and t for a, t in v.items())
+        none_true = any(a.endswith(" is None") and a[: -len(" is None")] in FILT and t for a, t in v.items())
         inst = {}
         for a, t in p.conds().items():
-            r = instance_test(a)
+            mm = re.fullmatch(r"self\.(\w+)\[(.+)\]", a)
+            r = (True, "") if mm and mm.group(1) in memo_ok else instance_test(a)
             if r is None:
                 continue
             if not r[0]:
@@ -352,7 +466,7 @@ def run(ctx) -> None:
             ok, msg = False, f"event enqueued on a path where neither 'filter is None' nor the instance test holds: {p.sig()}"
         if not puts and (none_true or inst_true):
             ok, msg = False, f"event dropped although the filter accepts it: {p.sig()}"
-    ctx.check(ok and shape and nput >= 1, RQ, "EventEmitter.queue_event", msg or "queue_event does not filter by isinstance over the filter's members", qfi.loc)
+    ctx.check(ok and shape and nput >= 1, RQ, "EventEmitter.queue_event", memo_msg or msg or "queue_event does not filter by isinstance over the filter's members", qfi.loc)
     ctx.count("functions", 4)
     ctx.assumptions += [
         "tuples handed to the emitter are built only from (IN_MOVED_FROM, IN_MOVED_TO) record pairs (C08 checks this)",
